@@ -20,7 +20,7 @@ Lemma product_sat_intro (W : nat -> Z -> Z) c kids :
      W c n = conv (map W (map fst kids)) (map (fun _ => (0, N + 1)) (map fst kids)) n) ->
   satisfies W c (UProduct kids).
 Proof.
-  intros H N HN. cbn [to_rule rule_equation o_parent o_children o_eps].
+  intros H N HN. unfold rule_equation; cbn [to_rule rule_equation_with o_parent o_children o_eps].
   unfold product_equation, holds. rewrite undiv_fold_mul by reflexivity. cbn [fst snd].
   eexists. eexists. split; [apply sem_class|]. split.
   - unfold zl. rewrite <- (noeps_map fst kids), <- (noeps_map Z.of_nat (map fst kids)).
